@@ -31,6 +31,8 @@ def check_case(case):
     res = Res()
     inputs = [tuple(x) for x in case["inputs"]]
     spec = mux_spec(inputs, case["pal"], case["rs_list"], case["rails"], case["by_rail"], pol=case.get("pol", 1), mux_pc=case.get("mux_pc"), order=case.get("order"), ig_table=case.get("ig_table", False), below=case.get("below", "std"))
+    if case.get("bounce"):   # the system phases are re-defined with other names and then as before: "inactive" inputs stay inactive
+        spec["bounce"] = case["bounce"]
     if case.get("reload"):
         # the declared priority order (different from the creation order) must survive save() / from_file()
         from ..sysmodel import build, observe
@@ -151,6 +153,9 @@ def gen_cases(tier):
             for rs_list, rails, by_rail in forms:
                 yield dict(inputs=[list(x) for x in inputs], pal=pal, rs_list=rs_list, rails=rails, by_rail=by_rail,
                            pol=-1 if (k == 2 and rs_list) else 1)
+            if k <= 2 and any(st.startswith("inact") for _, st in inputs):
+                for b in ("rename", "clear"):
+                    yield dict(inputs=[list(x) for x in inputs], pal=pal, rs_list=False, rails=False, by_rail=False, pol=1, bounce=b)
             if k <= 3:  # the mux with a 2-D ground-current table (looked up at the selected input's voltage)
                 yield dict(inputs=[list(x) for x in inputs], pal=pal, rs_list=False, rails=False, by_rail=False, pol=1, ig_table=True)
             if k <= 3:  # the mux itself sleeping in one phase (draws iis from the SELECTED input) / active in the other
